@@ -235,6 +235,24 @@ def gen_world(rng):
              S.func('foo_obj_prod', S.td('gint'), [selfp(), S.param('x', S.td('gint'))], line=333),
              S.func('foo_obj_same', S.td('gint'), [selfp(), S.param('x', S.td('gint'))], line=330),
              S.func('foo_obj_do_it', S.td('gint'), [selfp(), S.param('x', S.td('gint'))], line=331)]
+    if rng.random() < 0.6:
+        # another class of the namespace whose class structure has slots of the same names, there invoked by methods of the same
+        # name: what FooObj's virtual methods carry must not depend on it
+        otherp = lambda: S.param('self', S.ptr(S.td('FooOther')))
+        syms += [S.FS(S.CSYMBOL_TYPE_TYPEDEF, 'FooOther', base_type=S.FT(S.CTYPE_STRUCT, '_FooOther'), line=400),
+                 S.FS(S.CSYMBOL_TYPE_STRUCT, '_FooOther', base_type=S.FT(S.CTYPE_STRUCT, '_FooOther', child_list=[
+                     S.FS(S.CSYMBOL_TYPE_MEMBER, 'parent', base_type=S.td('GObject'), line=401)]), line=401),
+                 S.func('foo_other_get_type', S.td('GType'), [], line=410),
+                 S.FS(S.CSYMBOL_TYPE_TYPEDEF, 'FooOtherClass', base_type=S.FT(S.CTYPE_STRUCT, '_FooOtherClass'), line=420),
+                 S.FS(S.CSYMBOL_TYPE_STRUCT, '_FooOtherClass', base_type=S.FT(S.CTYPE_STRUCT, '_FooOtherClass', child_list=[
+                     S.FS(S.CSYMBOL_TYPE_MEMBER, 'parent_class', base_type=S.td('GObjectClass'), line=421),
+                     member_cb('it_slot', [otherp(), S.param('x', S.td('gint'))], 422),
+                     member_cb('poke', [otherp(), S.param('x', S.td('gint'))], 423),
+                     member_cb('lonely', [otherp()], 424)]), line=421),
+                 S.func('foo_other_it_slot', S.td('gint'), [otherp(), S.param('x', S.td('gint'))], line=430),
+                 S.func('foo_other_poke', S.td('gint'), [otherp(), S.param('x', S.td('gint'))], line=431),
+                 S.func('foo_other_lonely', S.td('gint'), [otherp()], line=432)]
+        dump = dump.replace('</dump>', '<class name="FooOther" get-type="foo_other_get_type" parents="GObject"></class></dump>')
     vf = {}
     for slot, method, via in (('same', 'foo_obj_same', None), ('it_slot', 'foo_obj_do_it', 'it_slot'), ('lonely', None, None),
                               ('poke', 'foo_obj_prod', 'poke')):      # the slot "poke" is declared through a callback typedef
